@@ -571,8 +571,9 @@ class PageFlyer(Flyer):
 del PageFlyer.collect
 
 
-class StreamDetector(_Base, StageableMixin):
-    """WritesStreamAssets: frames appear as a function of virtual time."""
+class LoneStreamDetector(_Base, StageableMixin):
+    """Writes stream assets (frames appear as a function of virtual time) but has no get_index(): legal when it is
+    collected alone - the engine then passes no index down and the detector reports what it has."""
 
     def __init__(self, sim, name, spec, world):
         super().__init__(sim, name, spec, world)
@@ -614,15 +615,6 @@ class StreamDetector(_Base, StageableMixin):
 
         return self._maybe_async("describe_collect", impl)
 
-    def get_index(self):
-        def impl():
-            self._enter("get_index")
-            i = self._index_now()
-            self.sim.record("index", dev=self.name, index=i)
-            return i
-
-        return self._maybe_async("get_index", impl)
-
     def collect_asset_docs(self, index=None):
         from event_model import compose_stream_resource
 
@@ -646,6 +638,19 @@ class StreamDetector(_Base, StageableMixin):
             self.sim.record("frames", dev=self.name, start=self._last, stop=index)
             self._last = index
         return iter(docs)
+
+
+class StreamDetector(LoneStreamDetector):
+    """WritesStreamAssets in full: with get_index(), so that several can be collected together."""
+
+    def get_index(self):
+        def impl():
+            self._enter("get_index")
+            i = self._index_now()
+            self.sim.record("index", dev=self.name, index=i)
+            return i
+
+        return self._maybe_async("get_index", impl)
 
 
 class AssetDetector(_Base, ReadableMixin, StageableMixin, TriggerableMixin):
@@ -720,6 +725,7 @@ KINDS = {
     "flyer": Flyer,
     "pageflyer": PageFlyer,
     "streamdet": StreamDetector,
+    "lonestreamdet": LoneStreamDetector,
 }
 
 
